@@ -19,6 +19,10 @@ Real code (run over harness.fakecourier, virtual clock):
                  label, the enabled thread set before every step, the registry contents before every step and all
                  outcomes are compared with the product LTS Model/OwnerEnv.lean (schedule replay), for seeded-random and
                  PCT schedules, plus a model-guided stage that reaches every program point of the LTS.
+  family 'schedrun': WorkerPool.run / call_and_wait on a real thread under the same scheduler against other pools' threads
+                 and environment threads; the composite operations' clock-driven spin loops are not in the LTS, so this
+                 family is decided by the independent oracle alone (single owner, no stealing, dead stays dead, monotone,
+                 nothing acquired when the operation returns or raises).
 Model: lean/MlModel/Model/Registry.lean, Owner.lean, OwnerEnv.lean; theorems: lean/MlModel/Properties/C20.lean.
 `extra`: exhaustive exploration of all interleavings of small configurations of the Owner LTS in the Lean
 driver (a *test* of the model / theorem hypotheses), the racy orders of F13 / F14 executed by hand on the
@@ -63,6 +67,8 @@ RULE = ('live: small-exhaustive event sequences (length<=3 quick / <=4 thorough)
         'deliver (late, failed) / tick), schedule chosen on the REAL code by a seeded uniform-random or PCT chooser and replayed '
         'choice by choice on the Lean LTS; non-trivial = at least 8 thread switches; model-guided stage: per configuration a BFS of '
         'the LTS yields, per program point, a shortest schedule ending there, replayed on the real code; '
+        'schedrun (oracle only): one pool thread running WorkerPool.run / call_and_wait (tasks that succeed or raise) against the '
+        'pool and environment threads of a sched case, inline transport, spin loops advance the virtual clock by 30-100 s; '
         'distinct = distinct canonical case JSON')
 
 THRS = [100, 180, 400]
@@ -273,12 +279,37 @@ def rand_sched(rng):
               threads=threads, sched=sched_spec(rng))
 
 
+def rand_schedrun(rng):
+  """The composite operations on real threads under the scheduler (oracle only): one pool runs `run` /
+  `call_and_wait` (tasks that succeed or raise) while other pools acquire / release the same workers and the
+  environment pronounces workers dead / revives them / lets the clock run."""
+  c = rand_sched(rng)
+  c['fam'] = 'schedrun'
+  c['spin'] = rng.choice([30, 60, 100])
+  p = rng.randrange(len(c['pw']))
+  mine = [dict(op=rng.choice(['run', 'run', 'call_and_wait']), p=p, task=rng.choice(['ok', 'ok', 'raise']))
+          for _ in range(rng.randrange(1, 3))]
+  if rng.random() < 0.3:
+    mine.insert(0, dict(op='acquire_all', p=p, ws=list(c['pw'][p]), n=0))
+  others = [t for t in c['threads'] if t['kind'] == 'env' or all(o['p'] != p for o in t['ops'])]
+  for t in others:                       # no manual deliveries in this family (the transport answers inline)
+    if t['kind'] == 'env':
+      t['ops'] = [o for o in t['ops'] if o['op'] != 'deliver'] or [dict(op='tick', d=31)]
+  c['threads'] = [dict(kind='pool', ops=mine)] + others[:3]
+  return c
+
+
 def gen_cases(ctx):
+  import os
+  fams = os.environ.get('VERIF_C20_FAMILIES')          # development aid: restrict the families (default: all)
+  for c in _gen_cases(ctx):
+    if not fams or c.get('fam') in fams.split(','):
+      yield c
+
+
+def _gen_cases(ctx):
   yield from ctx.corpus()
   rng, quick = ctx.rng, ctx.quick
-  # --- sched: real threads under the deterministic scheduler, replayed on the LTS
-  for _ in range(1500 if quick else 30000):
-    yield rand_sched(rng)
   # --- live: small-exhaustive
   al = live_alphabet()
   maxlen = 3 if quick else 4
@@ -300,12 +331,17 @@ def gen_cases(ctx):
       yield own_case(2, [[0, 1], [0, 1]], [oal[a], oal[b], oal[c]])
   for _ in range(500 if quick else 8000):
     yield rand_own(rng)
+  # --- sched (after the older families, whose random streams are thereby unchanged): real threads under the deterministic scheduler, replayed on the LTS
+  for _ in range(1500 if quick else 30000):
+    yield rand_sched(rng)
+  for _ in range(300 if quick else 6000):
+    yield rand_schedrun(rng)
 
 
 # ----------------------------------------------------------------------------- real code
 
 def run_impl(case):
-  if case['fam'] == 'sched':
+  if case['fam'] in ('sched', 'schedrun'):
     return lo.run_real(case)
   return run_live(case) if case['fam'] == 'live' else run_own(case)
 
@@ -505,6 +541,8 @@ def run_own(case):
 # ----------------------------------------------------------------------------- model
 
 def model_requests_obs(case, obs):
+  if case['fam'] == 'schedrun':      # oracle-only family: the composite operations are not modelled step by step
+    return []
   if case['fam'] == 'sched':
     return [lo.model_request(case, obs['choices'])]
   return model_requests(case)
@@ -568,6 +606,9 @@ _SCHEDULES = set()
 
 
 def model_obs(case, resps):
+  if case['fam'] == 'schedrun':
+    _cover('schedrun', 'runs')
+    return dict(skip=True)
   r = resps[0]
   if case['fam'] == 'sched':
     m = lo.model_obs(case, r)
@@ -613,6 +654,8 @@ def model_obs(case, resps):
 
 
 def compare(impl, model):
+  if model.get('skip'):
+    return None
   if 'steps' in impl:
     return lo.compare(impl, model)
   a, b = impl['obs'], model['obs']
@@ -637,7 +680,7 @@ def compare(impl, model):
 # ----------------------------------------------------------------------------- oracle (the property itself)
 
 def oracle(case, obs):
-  if case['fam'] == 'sched':
+  if case['fam'] in ('sched', 'schedrun'):
     return oracle_sched(case, obs)
   return oracle_live(case, obs) if case['fam'] == 'live' else oracle_own(case, obs)
 
@@ -674,17 +717,19 @@ def oracle_sched(case, obs):
         return f'{where}: worker {w} locked={b["locked"][w]} but owners={ob} (nobody inside its state lock)'
       for p in set(oa) - set(ob):
         ok = (th['kind'] == 'pool' and op['p'] == p and
-              ((op['op'] == 'release' and op['w'] == w) or (op['op'] == 'release_all' and (not op['ws'] or w in op['ws']))))
+              ((op['op'] == 'release' and op['w'] == w) or (op['op'] == 'release_all' and (not op['ws'] or w in op['ws']))
+               or (op['op'] in lo.COMPOSITE_OPS and w in case['pw'][p])))
         if not ok:
           return f'{where}: pool {p} lost worker {w} through an operation that is not its own release'
       for p in set(ob) - set(oa):
         ok = (th['kind'] == 'pool' and op['p'] == p and
-              ((op['op'] == 'acquire_all' and w in op['ws']) or (op['op'] == 'next_idle' and op['acq'] and w in op['ws'])))
+              ((op['op'] == 'acquire_all' and w in op['ws']) or (op['op'] == 'next_idle' and op['acq'] and w in op['ws'])
+               or (op['op'] in lo.COMPOSITE_OPS and w in case['pw'][p])))
         if not ok:
           return f'{where}: pool {p} became owner of worker {w} through an operation that does not acquire it for {p}'
       ra, rb = a['reg'][w], b['reg'][w]
       if ra != rb:
-        info = obs['opinfo'].get(f'{tid},{oi}') if th['kind'] == 'env' and op['op'] == 'deliver' else None
+        info = obs['opinfo'].get(f'{tid},{oi}') if th['kind'] == 'env' and op['op'] in ('deliver', 'send') else None
         hb = info if (info and info['method'] == 'heartbeat' and info['sender'] == w and not info['fail']) else None
         registers = th['kind'] == 'env' and ((op['op'] == 'revive' and op['w'] == w) or (hb is not None and hb['alive']))
         unregisters = th['kind'] == 'env' and ((op['op'] == 'die' and op['w'] == w) or (hb is not None and not hb['alive']))
@@ -719,6 +764,16 @@ def oracle_sched(case, obs):
         held = [w for w in range(nw) if p in b['owners'][w]]
         if held:
           return f'{where}: release_all() of pool {p} returned and the pool still owns workers {held}'
+      if op['op'] in lo.COMPOSITE_OPS and drivers[p] == {tid}:
+        # "when a pool-level operation returns or raises, none of its workers remains acquired"
+        held = [w for w in range(nw) if p in b['owners'][w]]
+        before = [w for w in range(nw) if p in span[0]['owners'][w]]
+        if op['op'] == 'run' and str(res).startswith('err:ValueError:Failed to connect'):
+          # run() on a pool without a live worker fails in wait_until_alive() before its try block: it did not start
+          if held != before:
+            return f'{where}: run() that could not start (no live worker) changed what pool {p} owns: {before} -> {held}'
+        elif held:
+          return f'{where}: {op["op"]}() of pool {p} ended with {res!r} and the pool still owns workers {held}'
   if obs['outcome'] == 'done' and not all(obs['finished']):
     return f"threads did not finish: {obs['finished']}"
   return None
@@ -838,7 +893,7 @@ def oracle_own(case, obs):
 
 
 def nontrivial(case, obs):
-  if case['fam'] == 'sched':
+  if case['fam'] in ('sched', 'schedrun'):
     ch = obs['choices']
     return sum(1 for a, b in zip(ch, ch[1:]) if a != b) >= 8
   if case['fam'] == 'live':
@@ -864,6 +919,12 @@ def finding(case, what):
 
 
 def neighbours(case, rng):
+  if case['fam'] == 'schedrun':
+    for k in range(300):
+      c = copy.deepcopy(case)
+      c['sched'] = sched_spec(rng)
+      yield c
+    return
   if case['fam'] == 'sched':
     for k in range(300):
       c = copy.deepcopy(case)
@@ -910,7 +971,7 @@ def shrink_sched(case, fails):
 
 
 def shrink(case, fails):
-  if case['fam'] == 'sched':
+  if case['fam'] in ('sched', 'schedrun'):
     return shrink_sched(case, fails)
   cur = case
   key = 'events' if case['fam'] == 'live' else 'ops'
@@ -1020,8 +1081,9 @@ def extra(ctx):
   if missing_pp and _COVER.get('sched_program_points'):
     from harness.core import InfraError
     raise InfraError(f'C20 sched family missed program points {missing_pp}')
+  import os
   missing = [b for b in LIVE_BRANCHES if b not in _COVER.get('live_model_branches', {})]
-  if missing:
+  if missing and not os.environ.get('VERIF_C20_FAMILIES'):
     from harness.core import InfraError
     raise InfraError(f'C20 generator missed model branches {missing}')
   # 1. exhaustive interleavings of small LTS configurations (test of the model, not a proof)
